@@ -13,10 +13,11 @@ while a:
 jobs = []
 for i in range(1, 21):
     pid = "C%02d" % i
-    for k in (1, 2, 3):
+    for k in (1, 2, 3, 4, 5, 6):
         name = "%s-B%d" % (pid, k)
         dst = "/verif/benign/%s" % name
-        src = "/tmp/ben1-%s/_benign/%d" % (pid, k)
+        # round 1 = B1..B3 (authors' worktrees /tmp/ben1-*), round 2 = B4..B6 (/tmp/ben2-*, directory _benign2)
+        src = "/tmp/ben1-%s/_benign/%d" % (pid, k) if k <= 3 else "/tmp/ben2-%s/_benign2/%d" % (pid, k - 3)
         done = set()
         if os.path.exists(dst + "/meta.json"):
             m = json.load(open(dst + "/meta.json"))
@@ -36,5 +37,5 @@ def run(j):
     print(line, flush=True)
 with ThreadPoolExecutor(P) as ex:
     list(ex.map(run, jobs))
-for d in glob.glob("/tmp/ben1-C*"):
+for d in glob.glob("/tmp/ben1-C*") + (glob.glob("/tmp/ben2-C*") if "--keep" not in sys.argv else []):
     subprocess.run("git -C /repo worktree remove --force %s; rm -rf %s; git -C /repo worktree prune" % (d, d), shell=True, capture_output=True)
